@@ -841,6 +841,12 @@ class CircuitTemplate(AbstractBaseTemplate):
         old_edges = self.collect_edges(delay_info=True)
         edge_col = self._group_edges(edges=old_edges)
 
+        # report edge values that address no edge of the circuit (they would be dropped silently otherwise)
+        edge_keys = {(source, target) for source, target, _, _ in edge_col}
+        for key in edge_values:
+            if key not in edge_keys:
+                warn(PyRatesWarning(f"edge_values: no edge matches `{key}`; the values are not applied."))
+
         # create final set of vectorized edges
         edges = []
         for (source, target, template, _), values in edge_col.items():
